@@ -38,13 +38,15 @@ def answers (o : Obj) (ops : List Op) : Option String := Id.run do
   let mut out : Array String := #[]
   for op in ops do
     let sc := scaleOf o op
+    let scT := scaleOfT o op
+    let isG := match op with | .integ _ _ => true | _ => false
     match step o op with
     | .error _ => return none
     | .ok (a, o') =>
       o := o'
       match a with
       | .idx j => out := out.push ("L " ++ toString j)
-      | .val v => out := out.push ("V " ++ showRat v ++ " " ++ showRat sc)
+      | .val v => out := out.push ("V " ++ showRat v ++ " " ++ showRat sc ++ (if isG then " T " ++ showRat scT else ""))
       | .unit => out := out.push "U"
   return some (" ".intercalate out.toList)
 
